@@ -227,6 +227,39 @@ def gen_effects(rng, d, m, kind):
         return [gmul(gmul(U, P), gadj(U)) for P in projectors(d, m, rng)]
     if kind == "trivial":
         return [gscale(w, geye(d)) for w in rand_weights(rng, m)]
+    if kind in ("deg-aligned", "deg-rotated"):
+        # effects with DEGENERATE spectra: Pi_x = sum_k a[x][k] U Q_k U^dag, {Q_k} a partition of the d levels into g < d groups (so at least one
+        # eigenspace has dimension >= 2), column k of a = a distribution over the outcomes (zeros allowed: coarse-grained projective measurements).
+        # 'aligned': U a permutation (eigh returns bitwise equal eigenvalues);  'rotated': U a random rational unitary (it does not)
+        g = rng.randint(1, d - 1)
+        Qs = projectors(d, g, rng)
+        U = rand_unitary(rng, d) if kind == "deg-rotated" else geye(d)
+        cols = []
+        for k in range(g):
+            if rng.random() < 0.4:
+                col = [Fr(0)] * m; col[rng.randrange(m)] = Fr(1)
+            else:
+                col = rand_weights(rng, m)
+                if rng.random() < 0.3:
+                    z = rng.randrange(m); rest = [i for i in range(m) if i != z]
+                    tot = sum(col[i] for i in rest); col = [Fr(0) if i == z else col[i] / tot for i in range(m)]
+            cols.append(col)
+        out = []
+        for x in range(m):
+            E = gscale(Fr(0), geye(d))
+            for k in range(g):
+                E = gadd(E, gscale(cols[k][x], gmul(gmul(U, Qs[k]), gadj(U))))
+            out.append(E)
+        return out
+    if kind == "product":
+        # an effect acting on ONE tensor factor of d = d1*d2 (d = 4: 2 x 2): E_x (x) I or I (x) E_x - every eigenvalue at least doubly degenerate
+        d1 = 2; d2 = d // 2
+        small = gen_effects(rng, d1, m, rng.choice(["generic", "proj", "mixed"]) if m <= d1 else rng.choice(["generic", "mixed"]))
+        left = rng.random() < 0.5
+
+        def gkron(A, B):
+            return (np.kron(A[0], B[0]) - np.kron(A[1], B[1]), np.kron(A[0], B[1]) + np.kron(A[1], B[0]))
+        return [gkron(E, geye(d2)) if left else gkron(geye(d2), E) for E in small]
     if kind == "generic":
         As = []
         for x in range(m):
@@ -255,6 +288,10 @@ def gen_povm(rng, d, m=None, kind=None):
     kind = kind or rng.choice(["proj", "generic", "generic", "mixed"])
     if kind == "proj" and m > d:
         kind = "generic"
+    if kind in ("deg-aligned", "deg-rotated") and d < 3:
+        kind = "trivial"           # the only degenerate effects of a qubit are multiples of the identity
+    if kind == "product" and (d != 4):
+        kind = "deg-rotated" if d >= 3 else "trivial"
     return {"t": "povm", "effects": [gjson(E) for E in gen_effects(rng, d, m, kind)], "kind": kind}
 
 
